@@ -303,3 +303,8 @@ pub fn alloc_aligned<T>(size: usize) -> Vec<T> {
         DEFAULTALIGN,
     )
 }
+
+#[cfg(kani)]
+mod verif_kani {
+    include!(concat!(env!("POULPY_VERIF_KX"), "/hal/lib.rs"));
+}
